@@ -141,9 +141,11 @@ def normalise(tree: ast.AST, rel: str, src: Optional[str] = None) -> int:
         return 0  # the file is the one the reference was taken from
     renamed = 0
     for q, fn in iter_functions(tree):
-        rshapes = ref.get(q)
-        if not rshapes:
+        entry = ref.get(q)
+        if not entry:
             continue
+        rshapes = entry.get("locals", [])
+        renamed += _canon_syntax(fn, entry)
         if function_locals(fn) == [r[0] for r in rshapes]:
             continue
         cur = shapes(fn)
@@ -174,14 +176,83 @@ def normalise(tree: ast.AST, rel: str, src: Optional[str] = None) -> int:
     return renamed
 
 
+FLIP = {ast.Lt: ast.Gt, ast.Gt: ast.Lt, ast.LtE: ast.GtE, ast.GtE: ast.LtE, ast.Eq: ast.Eq, ast.NotEq: ast.NotEq}
+
+
+def syntax_sets(fn: ast.AST):
+    """(texts of If/While/IfExp tests, texts of single-operator comparisons, texts of and/or expressions) of a function."""
+    tests, compares, boolops = set(), set(), set()
+    for n in ast.walk(fn):
+        if isinstance(n, (ast.If, ast.While, ast.IfExp)):
+            tests.add(ast.unparse(n.test))
+        if isinstance(n, ast.Compare) and len(n.ops) == 1:
+            compares.add(ast.unparse(n))
+        if isinstance(n, ast.BoolOp):
+            boolops.add(ast.unparse(n))
+    return tests, compares, boolops
+
+
+def _flipped(c: ast.Compare) -> Optional[ast.Compare]:
+    if len(c.ops) != 1 or type(c.ops[0]) not in FLIP:
+        return None
+    return ast.Compare(left=c.comparators[0], ops=[FLIP[type(c.ops[0])]()], comparators=[c.left])
+
+
+def _canon_syntax(fn: ast.AST, entry) -> int:
+    """Undo, where the result is a construct of the reference function, three behaviour-preserving rewrites: operands of a
+    comparison swapped (with the mirrored operator), operands of and/or permuted, if/else branches swapped under `not`."""
+    import itertools
+    rc, rb, rt = set(entry.get("compares", [])), set(entry.get("boolops", [])), set(entry.get("tests", []))
+    n_changed = 0
+    for n in ast.walk(fn):
+        if isinstance(n, ast.Compare) and len(n.ops) == 1 and ast.unparse(n) not in rc:
+            f = _flipped(n)
+            if f is not None and ast.unparse(f) in rc:
+                n.left, n.ops, n.comparators = f.left, f.ops, f.comparators
+                n_changed += 1
+    for n in ast.walk(fn):
+        if isinstance(n, ast.BoolOp) and 2 <= len(n.values) <= 4 and ast.unparse(n) not in rb:
+            for perm in itertools.permutations(n.values):
+                cand = ast.BoolOp(op=n.op, values=list(perm))
+                if ast.unparse(cand) in rb:
+                    n.values = list(perm)
+                    n_changed += 1
+                    break
+    for n in ast.walk(fn):
+        if isinstance(n, ast.If) and n.orelse and not (len(n.orelse) == 1 and isinstance(n.orelse[0], ast.If)):
+            t = ast.unparse(n.test)
+            if t in rt:
+                continue
+            if isinstance(n.test, ast.UnaryOp) and isinstance(n.test.op, ast.Not) and ast.unparse(n.test.operand) in rt:
+                n.test = n.test.operand
+                n.body, n.orelse = n.orelse, n.body
+                n_changed += 1
+            else:
+                neg = ast.UnaryOp(op=ast.Not(), operand=n.test)
+                if ast.unparse(neg) in rt:
+                    n.test = neg
+                    n.body, n.orelse = n.orelse, n.body
+                    n_changed += 1
+        elif isinstance(n, ast.IfExp):
+            t = ast.unparse(n.test)
+            if t not in rt and isinstance(n.test, ast.UnaryOp) and isinstance(n.test.op, ast.Not) and ast.unparse(n.test.operand) in rt:
+                n.test = n.test.operand
+                n.body, n.orelse = n.orelse, n.body
+                n_changed += 1
+    if n_changed:
+        ast.fix_missing_locations(fn)
+    return n_changed
+
+
 def build_reference(repo_modules) -> Dict[str, Dict[str, List[List[str]]]]:
     out: Dict[str, Dict[str, List[List[str]]]] = {}
     for rel, tree, src in repo_modules:
         d = {"__sha1__": hashlib.sha1(src.encode("utf-8")).hexdigest()}
         for q, fn in iter_functions(tree):
             s = shapes(fn)
-            if s:
-                d[q] = [[n, sh] for n, sh in s]
+            t, c, b = syntax_sets(fn)
+            if s or t or c or b:
+                d[q] = {"locals": [[n, sh] for n, sh in s], "tests": sorted(t), "compares": sorted(c), "boolops": sorted(b)}
         if len(d) > 1:
             out[rel] = d
     return out
